@@ -56,9 +56,20 @@ def n_cases(tier):
 def slow_sinks(prog, rng):
     for s in prog['nodes']:
         if s['op'] == 'sink' and rng.random() < 0.8:
-            s['kind'] = rng.choice(['coro', 'future', 'tornado', 'awaitable'])
+            s['kind'] = rng.choice(['coro', 'future', 'tornado', 'awaitable', 'coro', 'future', 'tornado', 'awaitable', 'awaitable_falsy'])
             if s['svc'] == [0]:
                 s['svc'] = [rng.choice([0.25, 0.5, 1.0])]
+
+
+def bare_elements(case, rng):
+    """consumers that hand back a falsy awaitable: some elements travel without metadata, so that the sink hands that very
+    object back (with metadata it wraps it in a coroutine of its own)"""
+    if any(s.get('kind') == 'awaitable_falsy' for s in case['prog']['nodes']):
+        for p in case['producers']:
+            for it in p:
+                if not str(it[1]).startswith('!') and rng.random() < 0.6:
+                    it[3] = 0
+    return case
 
 
 def gen_case(rng, fam):
@@ -82,13 +93,13 @@ def gen_case(rng, fam):
         slow_sinks(prog, rng)
         prods = g.producers(prog, max_total=12)
         merged = [it for p in prods for it in p]        # one producer
-        return {'family': fam, 'prog': prog, 'producers': [merged], 'awaiting': True}
+        return bare_elements({'family': fam, 'prog': prog, 'producers': [merged], 'awaiting': True}, rng)
     if fam == 'A2':
         g = aprogs.AGen(rng, async_ops=['rate_limit'], sync_ops=PER_ELEMENT, max_nodes=6, p_async=0.25)
         prog = g.program(min_async=0)
         slow_sinks(prog, rng)
-        return {'family': fam, 'prog': prog, 'producers': g.producers(prog, max_total=14),
-                'awaiting': rng.random() < 0.6}
+        return bare_elements({'family': fam, 'prog': prog, 'producers': g.producers(prog, max_total=14),
+                              'awaiting': rng.random() < 0.6}, rng)
     if fam == 'B':
         n = rng.choice([1, 1, 2, 3, 5])
         kind = rng.choice(['buffer', 'map_async', 'zip'])
